@@ -320,7 +320,12 @@ Fixpoint dtype_of (a : arg) : option dt :=
   | AOther _ => None
   | AOp c ch dn nd at_ =>
       match c with
-      | CZero | CPermutation | CTransposePermutation =>
+      | CZero =>                                                                       (* self._dtype: kept as an attribute only, *)
+          match lookup k_dtype at_ with                                                 (* or (repaired tree) also forwarded as a kwarg *)
+          | Some (VDtype d) => Some d
+          | _ => match lookup k_dtype nd with Some (VDtype d) => Some d | _ => None end
+          end
+      | CPermutation | CTransposePermutation =>
           match lookup k_dtype at_ with Some (VDtype d) => Some d | _ => None end      (* self._dtype *)
       | CIdentity => match lookup k_dtype nd with Some (VDtype d) => Some d | _ => None end
       | _ => if length dn <? length ch
